@@ -39,6 +39,10 @@ SPEC = {"amp": {1: True, 2: True, 3: True},
         "theta": {1: False, 2: False, 3: True}}
 
 MUTANTS = [
+    ("catalogue beam built without the finiteness test",
+     "AegeanTools/cluster.py",
+     "                catbeam = Beam(*psf) if np.all(np.isfinite(psf)) else None",
+     "                catbeam = Beam(*psf)", "C05-R16"),
     ("deconvolved size converted back with the wrong factor",
      "AegeanTools/cluster.py",
      "                src.a = np.sqrt(src.a) * 3600  # arcsec",
@@ -343,6 +347,7 @@ def run(ctx):
     rule_groupby(ctx, prog)
     rule_guarded_pixel(ctx, prog)
     rule_psf_rescale(ctx, prog)
+    rule_guarded_beam(ctx, prog)
     # blends are fitted jointly: default grouping length (shared with C19)
     from .c19 import default_linking_length
     ctx.rule("C05-R8", "blended sources are fitted jointly: the default "
@@ -701,6 +706,90 @@ def r5(ctx, prog):
               "Beam(nan, nan, nan) then raises and priorized fitting aborts "
               "for every catalogue lacking the optional columns" %
               (attr, default), {"default": default}, hp[0])
+
+
+def rule_guarded_beam(ctx, prog, rule="C05-R16"):
+    """a Beam is only built from a psf that is known to be finite"""
+    from .c08 import _resolve_local
+    ctx.rule(rule, "off-sky sources are skipped, not fatal: every Beam(...) "
+             "built in cluster.resize / WCSHelper.get_skybeam from the value "
+             "of a psf accessor (get_psf_sky2sky ...: NaN for a position "
+             "beyond the projection's horizon) is reached only after a "
+             "finiteness test of that value -- the guard get_skybeam applies "
+             "(sibling agreement); Beam() asserts a > 0 and an unguarded "
+             "construction aborts the whole priorized run")
+    n = 0
+    for short in ("cluster.resize", "wcs_helpers.WCSHelper.get_skybeam"):
+        fi = prog.func(short)
+        pm = {}
+        for x_ in ast.walk(fi.node):
+            for ch in ast.iter_child_nodes(x_):
+                pm[ch] = x_
+        for c in walk_no_nested(fi.node):
+            if not (isinstance(c, ast.Call) and
+                    norm(c.func).split(".")[-1] == "Beam" and c.args):
+                continue
+            srcs = []
+            for a in c.args:
+                v = a.value if isinstance(a, ast.Starred) else a
+                base = v
+                while isinstance(base, ast.Subscript):
+                    base = base.value
+                r = _resolve_local(fi.node, base) \
+                    if isinstance(base, ast.Name) else base
+                if isinstance(r, ast.Call) and \
+                        norm(r.func).split(".")[-1].startswith("get_psf_"):
+                    srcs.append((base, r))
+                elif isinstance(base, ast.Name):
+                    # a, b, pa = self.get_psf_sky2sky(...)
+                    for st in walk_no_nested(fi.node):
+                        if isinstance(st, ast.Assign) and \
+                                isinstance(st.targets[0], ast.Tuple) and \
+                                base.id in names_in(st.targets[0]) and \
+                                isinstance(st.value, ast.Call) and \
+                                norm(st.value.func).split(".")[-1].startswith(
+                                    "get_psf_"):
+                            srcs.append((base, st.value))
+            if not srcs:
+                continue
+            n += 1
+            names = {b.id for b, _ in srcs if isinstance(b, ast.Name)}
+            guarded = False
+            if names:
+                # an isfinite test on the value: an enclosing conditional
+                # expression / if, or an earlier `if not finite: return /
+                # continue` in the same block chain
+                cur = c
+                while cur in pm and not guarded:
+                    par = pm[cur]
+                    if isinstance(par, (ast.If, ast.IfExp)) and any(
+                            isinstance(t, ast.Call) and
+                            norm(t.func).split(".")[-1] == "isfinite" and
+                            names_in(t) & names for t in ast.walk(par.test)):
+                        guarded = True
+                    for fld in ("body", "orelse"):
+                        blk = getattr(par, fld, None)
+                        if isinstance(blk, list) and cur in blk:
+                            for prev in blk[:blk.index(cur)]:
+                                if isinstance(prev, ast.If) and prev.body and \
+                                        isinstance(prev.body[-1], (
+                                            ast.Return, ast.Continue,
+                                            ast.Raise)) and any(
+                                            isinstance(t, ast.Call) and
+                                            norm(t.func).split(".")[-1] ==
+                                            "isfinite" and
+                                            names_in(t) & names
+                                            for t in ast.walk(prev.test)):
+                                    guarded = True
+                    cur = par
+            ctx.check(rule, fi, "Beam built from a checked psf: " +
+                      norm(c, 60), guarded,
+                      "%s is built straight from %s, which is (nan, nan, "
+                      "nan) for a position beyond the horizon of the "
+                      "projection: Beam() then raises AssertionError and "
+                      "the run aborts instead of skipping the source" %
+                      (norm(c, 50), norm(srcs[0][1], 50)), node=c)
+    ctx.floor(rule, n, 2, "Beam constructions from psf accessor values")
 
 
 def rule_psf_rescale(ctx, prog, rule="C05-R15"):
